@@ -67,7 +67,7 @@ pub fn decide(pc: &PubCircuit, addr: &D4, inners: &[Inner], which: Which, rng: &
             if let Some(pis) = out.pis() {
                 if r.accept && pis != r.output.as_slice() {
                     let pos = pis.iter().zip(r.output.iter()).position(|(a, b)| a != b);
-                    match pc.circuit.confirm(&inputs, &[]) {
+                    match pc.circuit.confirm_ok(&inputs, &[]) {
                         Ok(_) => t.violation(
                             format!("C12:output-mismatch:{}", pub_region(pos.unwrap_or(usize::MAX), m, pc.n)),
                             format!("public-batch output differs from order-preserving forwarding at index {:?} (got {:?}, expected {:?}; lengths {} vs {})",
@@ -85,7 +85,7 @@ pub fn decide(pc: &PubCircuit, addr: &D4, inners: &[Inner], which: Which, rng: &
         }
         Which::C13 => {
             if out.is_sat() != r.accept {
-                let confirmed = pc.circuit.confirm(&inputs, &[]);
+                let confirmed = pc.circuit.confirm_ok(&inputs, &[]);
                 match (out.is_sat(), confirmed) {
                     (true, Ok(_)) => t.violation(
                         format!("C13:accepts:{}", r.failing[0]),
@@ -229,7 +229,99 @@ pub fn run(ctx: &Ctx, which: Which) {
             decide(&pubs[&(m, n)], &addr, &inners, which, &mut rng, t);
         }
     });
+    shrink_violations(ctx, &pubs, &privs, which);
     ctx.extra("exhaustive_subspaces", json!(["(M,N)=(2,1) and (2,2) x {dummy,blockA,blockB} x asset{0,1} x fee{1,2} per inner"]));
+}
+
+/// Shrinks the first recorded case of every violation signature (C12, C13): inners are dropped
+/// (the smaller public wrapper circuit is built on demand), then address limbs and inner public
+/// inputs are simplified towards 0/1; a candidate is kept only when re-deciding it from scratch
+/// reports the same signature. The shrunk case is confirmed by the real prover again.
+fn shrink_violations(ctx: &Ctx, pubs: &BTreeMap<(usize, usize), PubCircuit>, privs: &BTreeMap<usize, PrivCircuit>, which: Which) {
+    let mut vs = std::mem::take(&mut ctx.tally.lock().unwrap().violations);
+    let mut extra: BTreeMap<(usize, usize), PubCircuit> = BTreeMap::new();
+    let mut done: Vec<String> = vec![];
+    let mut log = vec![];
+    for v in vs.iter_mut() {
+        if done.contains(&v.signature) || done.len() >= 6 {
+            continue;
+        }
+        let Some((a0, i0)) = pubbatch::inners_from_json(&v.case["batch"]) else { continue };
+        if i0.is_empty() {
+            continue;
+        }
+        let n = i0[0].n;
+        if !privs.contains_key(&n) {
+            continue;
+        }
+        done.push(v.signature.clone());
+        let sig = v.signature.clone();
+        let evals = std::cell::Cell::new(0usize);
+        let test = |a: &D4, inn: &[Inner], extra: &mut BTreeMap<(usize, usize), PubCircuit>| -> Option<crate::util::Violation> {
+            let m = inn.len();
+            if m == 0 {
+                return None;
+            }
+            if !pubs.contains_key(&(m, n)) && !extra.contains_key(&(m, n)) {
+                match build_pub_circuits(&[(m, n)], privs) {
+                    Ok(mut b) => {
+                        if let Some(pc) = b.remove(&(m, n)) {
+                            extra.insert((m, n), pc);
+                        }
+                    }
+                    Err(_) => return None,
+                }
+            }
+            let pc = pubs.get(&(m, n)).or_else(|| extra.get(&(m, n)))?;
+            evals.set(evals.get() + 1);
+            let mut rng = Rng::fork(0x5eed_5a1e, m as u64);
+            let mut t = Tally::new();
+            decide(pc, a, inn, which, &mut rng, &mut t);
+            t.violations.into_iter().find(|x| x.signature == sig)
+        };
+        crate::engine::e1::FAST_CONFIRM.with(|c| c.set(true));
+        if test(&a0, &i0, &mut extra).is_none() {
+            crate::engine::e1::FAST_CONFIRM.with(|c| c.set(false));
+            continue;
+        }
+        let kept = crate::util::ddmin((0..i0.len()).collect::<Vec<usize>>(), |keep| {
+            if keep.is_empty() || evals.get() > 200 {
+                return false;
+            }
+            let inn: Vec<Inner> = keep.iter().map(|i| i0[*i].clone()).collect();
+            test(&a0, &inn, &mut extra).is_some()
+        });
+        let kept = if kept.is_empty() { (0..i0.len()).collect() } else { kept };
+        let i1: Vec<Inner> = kept.iter().map(|i| i0[*i].clone()).collect();
+        let w = i1[0].pis.len();
+        let mut flat: Vec<u64> = a0.to_vec();
+        flat.extend(i1.iter().flat_map(|x| x.pis.clone()));
+        let unflat = |f: &[u64]| -> (D4, Vec<Inner>) {
+            let a = [f[0], f[1], f[2], f[3]];
+            let inn = (0..i1.len()).map(|k| Inner { n, pis: f[4 + k * w..4 + (k + 1) * w].to_vec() }).collect();
+            (a, inn)
+        };
+        let flat = crate::util::simplify_u64s(flat, |f| {
+            if evals.get() > 1500 {
+                return false;
+            }
+            let (a, inn) = unflat(f);
+            test(&a, &inn, &mut extra).is_some()
+        });
+        let (a2, i2) = unflat(&flat);
+        crate::engine::e1::FAST_CONFIRM.with(|c| c.set(false));
+        if let Some(found) = test(&a2, &i2, &mut extra) {
+            log.push(json!({"signature": sig, "inners": [i0.len(), i2.len()], "nonzero_values": [i0.iter().flat_map(|x| x.pis.clone()).filter(|x| *x != 0).count(), flat.iter().skip(4).filter(|x| **x != 0).count()], "re-decisions": evals.get()}));
+            let mut case = found.case;
+            case["shrunk_from_m"] = json!(i0.len());
+            v.case = case;
+            v.description = format!("{} [shrunk from M={} to M={}]", found.description, i0.len(), i2.len());
+        }
+    }
+    ctx.tally.lock().unwrap().violations = vs;
+    if !log.is_empty() {
+        ctx.extra("shrinking", json!(log));
+    }
 }
 
 pub fn replay(case: &serde_json::Value, which: Which) -> Result<bool, String> {
